@@ -11,6 +11,8 @@ claimed = {
          "Scope-tree shape (children non-nil, ordered by start line) is a precondition assumed for the tree handed in; that the analysis declares locals in the right scope/order (DESIGN.md C05 (D)), global fall-back tables and member/require resolution are not covered. Termination of the recursion assumes a finite tree.", "5.C05"),
  "C14": ("Completion of local names: GetCompleteVar is proved, at the call that offers a name, to offer only a declaration that starts at or before the cursor, the last such declaration of its scope, and never to overwrite a name an inner scope already offered (loop invariant over the reverse scan, any list length); the cursor -> innermost scope step (FindMinScope) is the C05 contract.",
          "Completeness over the whole scope chain ('every visible local is offered') is argued from the map-range loop visiting every key (Go semantics) and is not a discharged obligation; prefix filter (IsCompleteNeedShow), globals, members and keywords are outside.", "5.C14"),
+ "C18": ("Module-path resolution kernel: every workspace file accepted as a candidate for a require/dofile argument ends with '/' + the module path (directory-boundary anchor, for both the with-suffix and the stem branch), stated at the point where the candidate is collected; the file-name index is an insert/remove inverse pair - InsertOneFile lists the path under its base name and its stem, RemoveOneFile leaves it listed under neither - so the answer follows file creation and deletion; the choice among candidates is the total order proved under C09.",
+         "strings.Split/Index/HasSuffix and concatenation are uninterpreted functions of their arguments (only length facts); CheckReferFile's decision table, the dir-manager matchers, GetOpenFileStr's regular expressions and agreement of hover/definition with the analysis are not under contract.", "5.C18"),
  "C19": ("Outline of locals (FindAllLocalVal): every produced variable symbol's range starts exactly where the declaration starts (so it contains the declaring identifier; the loop that extends the range to the last member may only move the end), plain variables carry the declaration's own range, and a scope that declares nothing still descends into its nested blocks (ghost call-site counter over the map-built work list, with map-size facts).",
          "Covers the local-symbol builder only; the global builder (results/file_result.go, repaired by the same fix), transferSymbolVec, the workspace-symbol matcher and 'every declaration is listed' in general are not under contract. The descent obligation is proved for the case of a scope without own locals.", "5.C19"),
  "C20": ("Pattern checks as site guards: at every InsertError call in cgAssignStat and cgBinopExp (whatever their number or order) a report of type 20/7/14/15/16/21 is proved to be made only when the documented pattern holds (self-assignment: every target/value pair syntactically equal, by a loop invariant over the pair scan; or-true / and-false / float-equality / same-operands: operator and operand shapes), and no other type is reported there. The AST is proved immutable outside the parser by a scan of every store in the module, which is what lets facts about a node survive the recursive traversal calls.",
